@@ -326,6 +326,8 @@ func asSuffixErr(err error) *pointerSuffixError {
 //@ func (*decoderState).consumeValue
 //@ split
 //@ property C05 C16 C20
+//@ ensures string-len: err == nil && old(d.buf[pos]) == '"' ==> newPos-d.prevStart >= pos-old(d.prevStart)+2
+//@ ensures ok-kind: err == nil ==> old(normKind[d.buf[pos]] == 'n' || normKind[d.buf[pos]] == 'f' || normKind[d.buf[pos]] == 't' || normKind[d.buf[pos]] == '"' || normKind[d.buf[pos]] == '0' || normKind[d.buf[pos]] == '{' || normKind[d.buf[pos]] == '[')
 //@ requires flags != nil && 1 <= depth && depth <= maxNestingDepth+1
 //@ requires d != nil && dbInv(d.prevStart, d.prevEnd, len(d.buf), d.baseOffset) && d.prevStart <= pos && pos < len(d.buf) && d.baseOffset+int64(len(d.buf)) < 1<<61
 //@ requires names-local: nsLocalOK(d.Names.offsets, d.Names.unquotedNames)
@@ -347,6 +349,7 @@ func asSuffixErr(err error) *pointerSuffixError {
 //@ ensures progress: err == nil ==> newPos-d.prevStart > pos-old(d.prevStart)
 //@ loop 0 invariant inv: dbInv(d.prevStart, d.prevEnd, len(d.buf), d.baseOffset) && d.baseOffset+int64(len(d.buf)) < 1<<61
 //@ loop 0 invariant pos: d.prevStart <= pos && pos < len(d.buf)
+//@ loop 0 invariant first: !old(normKind[d.buf[pos]] == 'n' || normKind[d.buf[pos]] == 'f' || normKind[d.buf[pos]] == 't') ==> sameSlice(d.buf, old(d.buf)) && unchanged(d.buf) && pos == old(pos) && d.prevStart == old(d.prevStart)
 //@ loop 0 invariant start: d.baseOffset+int64(d.prevStart) == old(d.baseOffset)+int64(old(d.prevStart))
 //@ loop 0 invariant wq: nsWindowQuoted(d.Names.offsets, d.buf, d.prevStart)
 //@ loop 0 invariant grow: len(d.buf)-d.prevStart >= old(len(d.buf))-old(d.prevStart)
@@ -529,3 +532,24 @@ func asSuffixErr(err error) *pointerSuffixError {
 //@ modifies everything
 //@ ensures peek-cleared: d.peekPos == 0 && d.peekErr == nil
 //@ ensures tokens: d.Tokens.Last == old(d.Tokens.Last) && len(d.Tokens.Stack) == old(len(d.Tokens.Stack))
+
+// ReadValue (safety and commit protocol of the value path through the public
+// API): every index in bounds, the two self-check panics after push/pop are
+// unreachable, a rejected value leaves the state machine untouched, an accepted
+// value advances it by exactly one element at the same depth, the peek cache is
+// cleared, and the returned value is the window [prevStart, prevEnd).
+//
+//@ func (*decoderState).ReadValue
+//@ split
+//@ property C01 C05 C20
+//@ requires d != nil && flags != nil && dbInv(d.prevStart, d.prevEnd, len(d.buf), d.baseOffset) && d.baseOffset+int64(len(d.buf)) < 1<<61 && smInv(d.Tokens.Stack, d.Tokens.Last)
+//@ requires peek: d.peekPos == 0 || d.peekErr != nil || (d.prevEnd <= d.peekPos && d.peekPos < len(d.buf))
+//@ requires names: nsLocalOK(d.Names.offsets, d.Names.unquotedNames) && nsRemoteOK(d.Names.offsets, len(d.buf)) && distinctArrays(d.Names.unquotedNames, d.buf) && nsWindowQuoted(d.Names.offsets, d.buf, d.prevStart)
+//@ requires names-depth: d.Tokens.Last.isObject() ==> len(d.Names.offsets) > 0 && (!d.Flags.Get(jsonflags.AllowDuplicateNames) ==> len(d.Namespaces) > 0)
+//@ modifies everything
+//@ ensures inv: 0 <= d.prevStart && d.prevStart <= d.prevEnd && d.prevEnd <= len(d.buf)
+//@ ensures depth: len(d.Tokens.Stack) == old(len(d.Tokens.Stack))
+//@ ensures rejected: result1 != nil ==> d.Tokens.Last == old(d.Tokens.Last)
+//@ ensures accepted: result1 == nil ==> d.Tokens.Last == old(d.Tokens.Last)+1
+//@ ensures value-window: result1 == nil ==> len(result0) == d.prevEnd-d.prevStart && cap(result0) == len(result0) && sliceOf(result0, d.buf)
+//@ ensures peek-cleared: d.peekPos == 0
